@@ -46,11 +46,22 @@ CHECKS = {
             "For one owned random tape the real sampler is run scalar, vectorised, through ordered / lazy / out-of-order pool objects (all 3! / 4! batch permutations at each map call, <=1 deviating call quick, <=2 thorough) "
             "and through real worker pools of size 1-3; after every pipeline step the complete state digest must equal the serial run's, the final evidence must be bit-identical and `calls` must equal the instrumented evaluation counter.",
             "Trusted: purity of the fixture likelihood. Real pool internals are observed, not scheduled.", "DESIGN.md §4 C13"),
+    "C16": ("exploration",
+            "exhaustive enumeration of a structured-double lattice x all strict/periodic/reflective coordinate assignments against an exact rational fold",
+            "Every value of a ~1.3k-point lattice of doubles (signed zeros, subnormals, every binade edge 2^-60..2^70 and up to 2^1023 with ulp neighbours, integers/halves/quarters with ulp neighbours, 2^53 and 2^63 edges, 1e300) "
+            "is placed in every coordinate of 1-D (d<=3) and 2-D arrays under every one of the 3^d role assignments; results are compared with the exact rational mod-1 / triangle fold, idempotence, untouched strict coordinates, "
+            "unmodified input and the exact truth table of check_bounds.",
+            "Trusted: Python Fraction arithmetic. Doubles outside the lattice are represented by their binade/neighbourhood class only. The 'symmetric proposal o fold is symmetric' consequence is decided under C03.", "DESIGN.md §4 C16"),
     "C18": ("model_checking",
             "exhaustive one-factor-at-a-time enumeration of invalid values over 4 base configurations; covering-array exploration (pairwise / 3-wise) of the constructor option product with complete real runs and delta-minimisation of failures",
             "All listed constraint violations x 4 valid bases must be rejected by the constructor with zero likelihood/prior calls; every row of a strength-2 (quick) / strength-3 (thorough) covering array over 14 constructor options "
             "(incl. pool in {None,1,2,object}, save_every on an in-memory file system, cluster cadence and caps) must construct, run to completion and satisfy the run post-conditions.",
             "Trusted: covering-array generator (its tuple coverage is measured and reported). Higher-order interactions than the stated strength are not covered.", "DESIGN.md §4 C18"),
+    "C20": ("exploration",
+            "exhaustive enumeration of all weight vectors over a dynamic-range alphabet (length<=5) and structured long vectors against rational references; affine-map lattice for the volume metric",
+            "All 37k weight vectors over {0,1e-300,1e-12,1e-3,1,3,1e8,1e300} of length 1-5 (plus long uniform/geometric/dominant/tempering/tied vectors up to 1e4) are checked for ESS in [1,N], exact value, scale and permutation invariance; "
+            "the trimming contract (upper set, order, alignment via identity samples, ESS fraction, normalisation) is checked for 4 ESS fractions x 3 bin counts; the volume metric is checked for non-negativity, weight-scale and affine invariance on a lattice of maps with condition number up to 1e6.",
+            "Trusted: Fraction reference for ESS. Inputs where the metric's own regularisation/clip branches are active are outside the invariance premise and are counted in evidence.", "DESIGN.md §4 C20"),
 }
 
 NOT_APPLICABLE = {
